@@ -50,7 +50,29 @@ def sh(cmd, cwd=None, env=None, timeout=3600, inp=None):
 
 # ---------------------------------------------------------------- builds
 
+class build_lock:
+    """the shared Coq development and model runner are (re)built by one process at a time"""
+    def __enter__(self):
+        import fcntl
+        os.makedirs(MBUILD, exist_ok=True)
+        self.f = open(os.path.join(MBUILD, ".lock"), "w")
+        fcntl.flock(self.f, fcntl.LOCK_EX)
+    def __exit__(self, *a):
+        import fcntl
+        fcntl.flock(self.f, fcntl.LOCK_UN); self.f.close()
+
+
 def coq_make():
+    with build_lock():
+        return _coq_make()
+
+
+def build_model():
+    with build_lock():
+        return _build_model()
+
+
+def _coq_make():
     """Full .vo build of the development (coq_makefile + make); no-op when up to date."""
     files = sorted(f for f in os.listdir(THEORIES) if f.endswith(".v") and f != "Extract.v")
     files += sorted("gen/" + f for f in os.listdir(os.path.join(COQ, "gen")) if f.endswith(".v")) if os.path.isdir(os.path.join(COQ, "gen")) else []
@@ -70,7 +92,7 @@ def newest_mtime(paths):
     return max((os.path.getmtime(p) for p in paths if os.path.exists(p)), default=0)
 
 
-def build_model():
+def _build_model():
     """Extract Run.run (Separate Extraction) and compile ocaml/modelrun.ml with it."""
     odir = os.path.join(MBUILD, "ocaml")
     exe = os.path.join(odir, "modelrun")
